@@ -131,7 +131,8 @@ func (plainBytes__Assembler) AssignString(string) error {
 	return mixins.BytesAssembler{TypeName: "bytes"}.AssignString("")
 }
 func (na *plainBytes__Assembler) AssignBytes(v []byte) error {
-	na.w = datamodel.Node(plainBytes(v))
+	w := plainBytes(v)
+	na.w = &w // a pointer, like NewBytes yields: a plainBytes value in an interface cannot be compared.
 	return nil
 }
 func (plainBytes__Assembler) AssignLink(datamodel.Link) error {
@@ -148,7 +149,8 @@ func (na *plainBytes__Assembler) AssignNode(v datamodel.Node) error {
 	if v2, err := v.AsBytes(); err != nil {
 		return err
 	} else {
-		na.w = plainBytes(v2)
+		w := plainBytes(v2)
+		na.w = &w
 		return nil
 	}
 }
